@@ -601,6 +601,13 @@ impl<'ast> LoweringContext<'ast> {
             in_path,
         )?;
 
+        if takes_write && !matches!(output.success_type(), SuccessType::Write) {
+            // The bindings return either the written string or the value; the exported function would take the
+            // write parameter they leave out.
+            self.errors.push(LoweringError::Other(format!("Method `{}` takes a DiplomatWrite and also returns a value; a method that writes its output can only return (), Option<()> or Result<(), E>", method.abi_name)));
+            return Err(());
+        }
+
         let abi_name = self.lower_ident(&method.abi_name, "method abi name")?;
         let hir_method = Method {
             docs: method.docs.clone(),
